@@ -15,7 +15,7 @@ type bigRat = big.Rat
 
 func keyEmuAxes(big bool) []AxisDesc {
 	ax := []AxisDesc{
-		{Name: "ABS_HAT0X", Type: "key", Note: 60, NoteNeg: 62, Min: -1, Max: 1, Deadzone: 0, Pos: []int32{-1, 0, 1}},
+		{Name: "ABS_HAT0X", Type: "key", Note: 60, NoteNeg: 62, Off: 15, OffNeg: 3, Min: -1, Max: 1, Deadzone: 0, Pos: []int32{-1, 0, 1}},
 		// flipped signed stick with only a positive note: -64/128 = exactly half travel, +-63 in the hysteresis band
 		{Name: "ABS_RY", Type: "key", Note: 64, NoteNeg: -1, Flip: true, Min: -128, Max: 127, Deadzone: 0,
 			Pos: []int32{-128, -64, -63, -62, 0, 62, 63, 64, 127}},
@@ -136,7 +136,11 @@ func (k *keyEmu) Step(c *StepCtx) {
 		if _, s := k.snd[key]; s || note < 0 {
 			return
 		}
-		ch, p, ok := c.Pre.Transpose(note, 0)
+		off := a.Off
+		if strings.HasSuffix(key, "-") {
+			off = a.OffNeg
+		}
+		ch, p, ok := c.Pre.Transpose(note, off)
 		if !ok {
 			return
 		}
